@@ -267,6 +267,44 @@ pub fn run(tier: Tier, seed: u64) -> i32 {
         reader_graph(&name, &bytes, declared, if th { 2 } else { 1 }, &mut l, &mut states, &mut trans);
     }
 
+    // ---- long inputs: every lookup in ascending, then descending, then zig-zag order on ONE reader must give what the
+    // logical movie says (= what a fresh reader gives): chunks of 300 variable-size samples interleaved over two tracks;
+    // 70 and 130 fragments with run-less track fragments at multiples of 32 and elsewhere
+    {
+        use crate::refmp4::frag::*;
+        use crate::refmp4::movie::*;
+        let mut ll = Local::default();
+        let mk = |id: u32, codec: Codec| {
+            let samples: Vec<LSample> = (0..900).map(|i| LSample { size: 1 + ((i as u32 * 7 + id) % 5), delta: 3, cts: 0, sync: true }).collect();
+            LTrack::simple(id, codec, 1000, samples, vec![300, 300, 300])
+        };
+        crate::props::c03::judge("C15", "long:interleaved_chunks_of_300", &LMovie::new(1000, vec![mk(1, Codec::Avc), mk(2, Codec::Aac)]), &mut ll);
+        let opts = crate::props::c09::all_opts();
+        for (nf, empty_at) in [(70usize, 32usize), (130, 64), (130, 31), (70, 33)] {
+            for oi in [3usize, 200, 700] {
+                let o = opts[oi % opts.len()];
+                let m = LFragMovie {
+                    movie_ts: 1000,
+                    tracks: vec![LFragTrack { id: 1, codec: Codec::Avc, timescale: 12800, trex_default_duration: 9 }],
+                    fragments: (0..nf).map(|i| vec![crate::props::c09::mk_run(1, &o, if i == empty_at { crate::props::c09::NO_TRUN } else { 1 + i % 2 }, i as u32)]).collect(),
+                    mehd: None,
+                    large_moof: false,
+                    offsets_only: false,
+                    fillers: 0,
+                };
+                crate::props::c09::judge("C15", "long:many_fragments_with_a_runless_one", &m, &mut ll);
+            }
+        }
+        l.evaluations += ll.evaluations;
+        l.validated += ll.validated;
+        l.nontrivial += ll.nontrivial;
+        trans += ll.transitions;
+        for (k, v) in ll.outcomes {
+            *l.outcomes.entry(format!("long_inputs:{}", k)).or_insert(0) += v;
+        }
+        l.violations.merge(ll.violations);
+    }
+
     // ---- parsing twice: equal structures
     let mut parse_files = files.clone();
     parse_files.push(("canned:extended_audio_object_type.mp4".into(), canned("extended_audio_object_type.mp4")));
